@@ -36,6 +36,11 @@ use std::sync::Arc;
 use tokio::net::TcpListener;
 #[cfg(any(feature = "tls_rustls", feature = "tls_openssl"))]
 use tokio::net::TcpStream;
+#[cfg(sirc_verif)]
+use crate::verif_seam::RwLock;
+#[cfg(sirc_verif)]
+use tokio::sync::oneshot;
+#[cfg(not(sirc_verif))]
 use tokio::sync::{oneshot, RwLock};
 use tokio::task::JoinHandle;
 #[cfg(feature = "tls_openssl")]
@@ -460,6 +465,15 @@ async fn user_state_process(main_state: Arc<MainState>, stream: DualTcpStream, a
         );
         main_state.remove_user(&conn_state).await;
     }
+}
+
+#[cfg(sirc_verif)]
+pub(crate) async fn verif_user_state_process(
+    main_state: Arc<MainState>,
+    stream: DualTcpStream,
+    addr: SocketAddr,
+) {
+    user_state_process(main_state, stream, addr).await
 }
 
 #[cfg(feature = "tls_rustls")]
